@@ -112,6 +112,86 @@ def function_worker(inst):
     return out
 
 
+def direct_worker(inst):
+    """terms built directly through their constructors (not through Funsor.reduce / the Prog builder): a Contraction
+    whose reduced variables include some that no term mentions; slices of (nested) Lambda terms whose body does or does
+    not mention the bound variable"""
+    from harness.oblig import decide, Decline
+    kind = inst[1]
+
+    def ob(mk):
+        from collections import OrderedDict
+        import itertools
+        import numpy as np
+        import funsor.ops as ops
+        from funsor import Bint, Real, Tensor, Variable
+        from funsor.cnf import Contraction
+        from funsor.terms import Lambda
+        from harness.core import result_cells
+        from lang import cellops as C
+        pairs = []
+        if kind == "contraction":
+            _, _, red, prod, zsize, which = inst
+            car = {"add": "real", "logaddexp": "log"}[red]
+            F = mk.array("f", (2, 2), car)
+            G = mk.array("g", (2,), car)
+            f = Tensor(F, OrderedDict(a=Bint[2], b=Bint[2]))
+            g = Tensor(G, OrderedDict(a=Bint[2]))
+            z, a, b = Variable("z", Bint[zsize]), Variable("a", Bint[2]), Variable("b", Bint[2])
+            rv = {"z": [z], "za": [z, a], "zab": [z, a, b]}[which]
+            r = Contraction(getattr(ops, red), getattr(ops, prod), frozenset(rv), f, g)
+            fa, ga = F.view(np.ndarray), G.view(np.ndarray)
+            keep = [n for n in ("a", "b") if n not in {v.name for v in rv}]
+            for pt in itertools.product(*(range(2) for _ in keep)):
+                env = dict(zip(keep, pt))
+                terms = []
+                for zz in range(zsize):
+                    for aa in ([env["a"]] if "a" in env else range(2)):
+                        for bb in ([env["b"]] if "b" in env else range(2)):
+                            terms.append(C.BINARY[prod](fa[aa, bb], ga[aa]))
+                pairs.append(([result_cells(r, env)[()]], [C.fold(red, terms)]))
+            return pairs
+        if kind == "lambda_slice":
+            _, _, body_dep, index = inst
+            T = mk.array("t", (3, 2), "real")
+            Z = mk.array("z", (), "real")
+            t = Tensor(T, OrderedDict(j=Bint[3], i=Bint[2]))
+            zt = Tensor(Z)
+            from funsor.interpretations import lazy
+            zv = Variable("z", Real)
+            with lazy:
+                body = {"none": zv * 2.0, "i": zv + t(j=0), "j": zv + t(i=1), "ij": zv + t}[body_dep]
+            lam = Lambda(Variable("j", Bint[3]), Lambda(Variable("i", Bint[2]), body))
+            try:
+                r = lam[index]
+            except (ValueError, NotImplementedError, AssertionError) as e:
+                raise Decline("%s: %s" % (type(e).__name__, str(e)[:60]))
+            r = r(z=zt)
+            ta, zc = T.view(np.ndarray), Z.view(np.ndarray)[()]
+            full = np.empty((3, 2), dtype=object)
+            for jj in range(3):
+                for ii in range(2):
+                    full[jj, ii] = {"none": C.BINARY["mul"](zc, 2.0), "i": C.BINARY["add"](zc, ta[0, ii]), "j": C.BINARY["add"](zc, ta[jj, 1]),
+                                    "ij": C.BINARY["add"](zc, ta[jj, ii])}[body_dep]
+            want = full[index]
+            if not isinstance(want, np.ndarray):
+                w0 = np.empty((), dtype=object)
+                w0[()] = want
+                want = w0
+            import z3
+            shape_ok = tuple(r.output.shape) == want.shape and not r.inputs
+            pairs.append((z3.BoolVal(shape_ok) if mk.symbolic else shape_ok, None))
+            if not shape_ok:
+                return pairs
+            cells = result_cells(r, {})
+            pairs.append(([cells[ix] for ix in np.ndindex(*want.shape)], [want[ix] for ix in np.ndindex(*want.shape)]))
+            return pairs
+        raise ValueError(kind)
+    out = decide("direct|%s" % (inst[1:],), ob, timeout_ms=10000, twin=True)
+    out["prog"] = out["label"]
+    return out
+
+
 def main():
     chk = Check("C01", "model_checking")
     insts = instances(chk.tier, chk.seed)
@@ -119,6 +199,10 @@ def main():
     finsts = [("function", multi, how, sc) for multi in (False, True) for how in ("eager", "lazy")
               for sc in ((1.0, 3.0, 0.5, 3.0), (2.0, 2.0, -1.0), (0.0, 1.0))]
     chk.map("checks.c01", "function_worker", finsts, chunksize=1, family="function")
+    dinsts = [("direct", "contraction", red, prod, zs, which) for red, prod in (("add", "mul"), ("logaddexp", "add")) for zs in (1, 2, 3) for which in ("z", "za", "zab")]
+    dinsts += [("direct", "lambda_slice", dep, idx) for dep in ("none", "i", "j", "ij")
+               for idx in ((slice(None), 1), 2, (2, 0), (slice(None), slice(None)), (slice(None), slice(1, None)), (slice(1, 3),), (slice(0, 3, 2), 1), (Ellipsis, 0))]
+    chk.map("checks.c01", "direct_worker", dinsts, chunksize=2, family="direct")
     for o in chk.outcomes:
         if o.get("core_decline"):
             chk.notes.append("core-fragment decline: %s :: %s" % (o.get("prog"), o.get("detail")))
